@@ -1208,6 +1208,30 @@ fn step_inner(s: &mut Sess, toks: &[&str]) -> Option<String> {
                 Ok(Err(e)) => format!("err {} | {}", s.fmt_mem_err(&e), s.fmt_dec()),
             })
         }
+        ["mem_swap", h, len, fill] => {
+            // the caller, holding a context taken out of the memory, keeps its storage and puts a fresh one of
+            // another length, with the same leading bytes, in its place (what a user of the public trait on the pub
+            // `memory` field can do)
+            let h: usize = h.parse().ok()?;
+            let len: usize = len.parse().ok()?;
+            let fill: usize = fill.parse().ok()?;
+            s.dec.as_ref()?;
+            if !s.held.contains_key(&h) {
+                return None;
+            }
+            let mut b = vec![fill as u8; len].into_boxed_slice();
+            let id = s.next_id;
+            s.next_id += 1;
+            if len > 0 {
+                s.ids.insert(b.as_ptr() as usize, id);
+            }
+            let (c, old) = s.held.remove(&h)?;
+            let k = len.min(old.len());
+            b[..k].copy_from_slice(&old[..k]);
+            s.own(old);
+            s.held.insert(h, (c, b));
+            Some(format!("ok {} | -", id))
+        }
         ["mem_release", h] => {
             let h: usize = h.parse().ok()?;
             s.dec.as_ref()?;
